@@ -9,6 +9,7 @@ import (
 	"io"
 	"strconv"
 	"strings"
+	"time"
 
 	"github.com/quay/claircore"
 	"github.com/quay/claircore/alpine"
@@ -103,9 +104,9 @@ func runSecdb(r *hx.Run, g *gen, cfg hx.Config) {
 		repo := g.r.Pick("main", "community")
 		p := alpine.ParserForC14(edge, maj, min, repo)
 		rel := fmt.Sprintf("v%d.%d", maj, min)
-		dist := fmt.Sprintf("alpine|%d.%d|", maj, min)
+		dist := mkDistKey("alpine", fmt.Sprintf("%d.%d", maj, min), "", "Alpine Linux", "", fmt.Sprintf("Alpine Linux v%d.%d", maj, min), "")
 		if edge {
-			rel, dist = "edge", "alpine|edge|"
+			rel, dist = "edge", mkDistKey("alpine", "edge", "", "Alpine Linux", "", "Alpine Linux edge", "")
 		}
 		pkgs := g.secdb()
 		if it == 0 {
@@ -229,6 +230,10 @@ func (g *gen) debian() []debSrc {
 	return out
 }
 
+func debDistKey(name string, ver int) string {
+	return mkDistKey("debian", strconv.Itoa(ver), name, "Debian GNU/Linux", fmt.Sprintf("%d (%s)", ver, name), fmt.Sprintf("Debian GNU/Linux %d (%s)", ver, name), "")
+}
+
 func renderDebian(data []debSrc) []byte {
 	doc := map[string]any{}
 	for _, s := range data {
@@ -266,7 +271,7 @@ func runDebian(r *hx.Run, g *gen, cfg hx.Config) {
 		feed := renderDebian(data)
 		l := (&line{}).tok("debian").n(len(debKnown))
 		for _, k := range debKnown {
-			l.str(k.name).str(fmt.Sprintf("debian|%d|%s", k.ver, k.name))
+			l.str(k.name).str(debDistKey(k.name, k.ver))
 		}
 		l.n(len(data))
 		var wants []want
@@ -287,7 +292,7 @@ func runDebian(r *hx.Run, g *gen, cfg hx.Config) {
 						continue
 					}
 					r.Count("debian:status:" + d.Status)
-					wants = append(wants, want{ID: v.ID, Pkg: s.Name, Fixed: d.Fixed, Dist: fmt.Sprintf("debian|%d|%s", debKnown[known].ver, d.Release),
+					wants = append(wants, want{ID: v.ID, Pkg: s.Name, Fixed: d.Fixed, Dist: debDistKey(d.Release, debKnown[known].ver),
 						Sev: debian.NormalizeSeverityForC14(d.Urgency)})
 				}
 			}
@@ -332,6 +337,8 @@ func runDebian(r *hx.Run, g *gen, cfg hx.Config) {
 type alasPkg struct{ Name, Epoch, Version, Release, Arch string }
 type alasUpdate struct {
 	ID, Desc, Severity string
+	Issued             time.Time // zero = no <issued> element
+	IssuedFmt          int       // 0 = "2006-01-02 15:04", 1 = time.DateTime
 	Refs               []string
 	Colls              [][]alasPkg // pkglist collections
 }
@@ -341,7 +348,10 @@ var awsSeverities = []string{"low", "medium", "important", "critical", "Low", "C
 func (g *gen) alas() []alasUpdate {
 	var out []alasUpdate
 	for i, n := 0, g.r.Intn(5); i < n; i++ {
-		u := alasUpdate{ID: "ALAS-" + g.r.Pick(cveYears...) + "-" + strconv.Itoa(1+g.r.Intn(900)), Desc: g.text(6), Severity: g.r.Pick(awsSeverities...)}
+		u := alasUpdate{ID: "ALAS-" + g.r.Pick(cveYears...) + "-" + strconv.Itoa(1+g.r.Intn(900)), Desc: g.text(6), Severity: g.r.Pick(awsSeverities...), Issued: g.date(), IssuedFmt: g.r.Intn(2)}
+		if u.IssuedFmt == 0 {
+			u.Issued = u.Issued.Truncate(time.Minute) // the short format has no seconds
+		}
 		for j, m := 0, g.r.Intn(4); j < m; j++ {
 			if g.r.Chance(1, 8) {
 				u.Refs = append(u.Refs, "")
@@ -373,7 +383,11 @@ func renderAlas(ups []alasUpdate) []byte {
 	b.WriteString("<?xml version=\"1.0\" ?>\n<updates>")
 	for _, u := range ups {
 		fmt.Fprintf(&b, `<update author="linux-security@amazon.com" from="linux-security@amazon.com" status="final" type="security" version="1.4">`)
-		fmt.Fprintf(&b, "<id>%s</id><title>%s: %s priority package update</title><issued date=\"2020-01-14 22:46\" /><updated date=\"2020-02-03 14:25:10\" />", esc(u.ID), esc(u.ID), esc(u.Severity))
+		fmt.Fprintf(&b, "<id>%s</id><title>%s: %s priority package update</title>", esc(u.ID), esc(u.ID), esc(u.Severity))
+		if !u.Issued.IsZero() {
+			fmt.Fprintf(&b, "<issued date=\"%s\" />", u.Issued.Format([]string{"2006-01-02 15:04", time.DateTime}[u.IssuedFmt]))
+		}
+		b.WriteString("<updated date=\"2020-02-03 14:25:10\" />")
 		fmt.Fprintf(&b, "<severity>%s</severity><description>%s</description><references>", esc(u.Severity), esc(u.Desc))
 		for _, ref := range u.Refs {
 			fmt.Fprintf(&b, `<reference href="%s" id="x" title="" type="cve" />`, esc(ref))
@@ -397,7 +411,9 @@ func runAws(r *hx.Run, g *gen, cfg hx.Config) {
 	rels := []struct {
 		rel  aws.Release
 		dist string
-	}{{aws.AmazonLinux1, "amzn|2018.03|"}, {aws.AmazonLinux2, "amzn|2|"}, {aws.AmazonLinux2023, "amzn|2023|"}}
+	}{{aws.AmazonLinux1, mkDistKey("amzn", "2018.03", "", "Amazon Linux AMI", "2018.03", "Amazon Linux AMI 2018.03", "cpe:/o:amazon:linux:2018.03:ga")},
+		{aws.AmazonLinux2, mkDistKey("amzn", "2", "", "Amazon Linux", "2", "Amazon Linux 2", "cpe:2.3:o:amazon:amazon_linux:2")},
+		{aws.AmazonLinux2023, mkDistKey("amzn", "2023", "", "Amazon Linux", "2023", "Amazon Linux 2023", "cpe:2.3:o:amazon:amazon_linux:2023")}}
 	for it, n := 0, cfg.N(1500, 12000); it < n && !r.Stop(); it++ {
 		rel := rels[g.r.Intn(len(rels))]
 		u, _ := aws.NewUpdater(rel.rel)
@@ -406,7 +422,7 @@ func runAws(r *hx.Run, g *gen, cfg hx.Config) {
 		l := (&line{}).tok("aws").str(fmt.Sprintf("aws-%v-updater", rel.rel)).str(rel.dist).n(len(ups))
 		var wants []want
 		for _, up := range ups {
-			l.str(up.ID).str(up.Desc).str(up.Severity).n(len(up.Refs))
+			l.str(up.ID).str(up.Desc).str(up.Severity).str(issuedTok(up.Issued)).n(len(up.Refs))
 			for _, ref := range up.Refs {
 				l.str(ref)
 			}
@@ -422,7 +438,7 @@ func runAws(r *hx.Run, g *gen, cfg hx.Config) {
 					if p.Epoch != "" && p.Epoch != "0" {
 						fixed = p.Epoch + ":" + fixed
 					}
-					wants = append(wants, want{ID: up.ID, Pkg: p.Name, Fixed: fixed, Dist: rel.dist, Extra: "arch=" + p.Arch, Sev: aws.NormalizeSeverity(up.Severity)})
+					wants = append(wants, want{ID: up.ID, Pkg: p.Name, Fixed: fixed, Dist: rel.dist, Extra: "arch=" + p.Arch + " issued=" + issuedTok(up.Issued), Sev: aws.NormalizeSeverity(up.Severity)})
 				}
 			}
 		}
@@ -442,7 +458,7 @@ func runAws(r *hx.Run, g *gen, cfg hx.Config) {
 			if v.Package == nil {
 				return "arch=?"
 			}
-			return "arch=" + v.Package.Arch
+			return "arch=" + v.Package.Arch + " issued=" + issuedTok(v.Issued)
 		}); d != "" {
 			r.Fail("", fmt.Sprintf("aws updateinfo: %s; feed=%s", d, clip(feed)))
 		}
